@@ -91,7 +91,7 @@ func c10R8(c *Ctx) {
 		n++
 		ok := len(inits) > 0
 		for _, b := range fn.Blocks {
-			if _, isRet := b.Instrs[len(b.Instrs)-1].(*ssa.Return); !isRet {
+			if _, isRet := b.Instrs[len(b.Instrs)-1].(*ssa.Return); !isRet || b == fn.Recover {
 				continue
 			}
 			dom := false
@@ -313,10 +313,19 @@ func c16R11(c *Ctx) {
 		if s.Kind != "file" {
 			continue
 		}
+		// the prefix builder and the string helpers it calls
+		var fns []*ssa.Function
 		for _, fn := range p.FuncsIn(s.T.Obj().Pkg().Path()) {
-			if fn.Signature.Params().Len() != 1 || typeName(fn.Signature.Params().At(0).Type()) != "SessionID" {
-				continue
+			if fn.Signature.Params().Len() == 1 && typeName(fn.Signature.Params().At(0).Type()) == "SessionID" {
+				fns = appendFn(fns, fn)
+				for _, cl := range Calls(fn) {
+					if cal := cl.Common().StaticCallee(); cal != nil && p.InModule(cal) && fnPkg(cal) == fnPkg(fn) {
+						fns = appendFn(fns, cal)
+					}
+				}
 			}
+		}
+		for _, fn := range fns {
 			ForEachInstr(fn, func(in ssa.Instruction) {
 				v, ok := in.(ssa.Value)
 				if !ok {
@@ -332,19 +341,29 @@ func c16R11(c *Ctx) {
 				}
 				for _, e := range ai.Elems {
 					eo := p.Origin(e)
-					if eo.Kind != "field" {
+					if eo.Kind != "field" && eo.Kind != "param" {
 						continue
 					}
 					n++
+					same := func(x *Org) bool {
+						if eo.Kind == "field" {
+							return x.Kind == "field" && x.Field == eo.Field
+						}
+						return x.Kind == "param" && x.Fn == eo.Fn && x.Param == eo.Param
+					}
 					ok := d.Implies(func(a *Atom) bool {
 						for _, side := range []*Org{a.L, a.R} {
-							if side != nil && side.Mentions(func(x *Org) bool { return x.Kind == "field" && x.Field == eo.Field }) {
+							if side != nil && side.Mentions(same) {
 								return true
 							}
 						}
 						return false
 					})
-					c.Check(ok, FuncName(fn), p.InstrPos(in), "prefix-part-own-guard:"+cn(eo.Field), cn(eo.Field)+" appended under a test of "+cn(eo.Field), "the session field "+cn(eo.Field)+" is added to the file-name prefix under "+d.String()+", which does not test that field: sessions that differ only in "+cn(eo.Field)+" can end up sharing all backing files")
+					what := eo.String()
+					if eo.Kind == "field" {
+						what = cn(eo.Field)
+					}
+					c.Check(ok, FuncName(fn), p.InstrPos(in), "prefix-part-own-guard:"+what, what+" appended under a test of "+what, "the name part "+what+" is added to the file-name prefix under "+d.String()+", which does not test that very value: sessions that differ only in it can end up sharing all backing files")
 				}
 			})
 		}
